@@ -131,7 +131,7 @@ def rand_operand(rng, ctx):
     return ['cnt', rng.randint(0, ctx['ncnt'] - 1)]
 
 
-DIMS = [('1', 'pt'), ('2', 'pt'), ('1.5', 'pt'), ('1', 'cm'), ('10', 'mm'), ('1', 'in'), ('72.27', 'pt'), ('0', 'pt'), ('3', 'mm'), ('0.5', 'cm'), ('12', 'pt'), ('1', 'pc')]
+DIMS = [('1', 'truecm'), ('2', 'truept'), ('1', 'true in'), ('10', 'truemm'), ('1', 'pt'), ('2', 'pt'), ('1.5', 'pt'), ('1', 'cm'), ('10', 'mm'), ('1', 'in'), ('72.27', 'pt'), ('0', 'pt'), ('3', 'mm'), ('0.5', 'cm'), ('12', 'pt'), ('1', 'pc')]
 
 
 def rand_test(rng, ctx):
@@ -174,7 +174,11 @@ def rand_node(rng, depth, ctx, params=0):
     r = rng.random()
     if depth > 0 and r < 0.3:
         els = rand_nodes(rng, depth - 1, ctx, params=params) if rng.random() < 0.6 else None
-        return ['cond', rand_test(rng, ctx), rand_nodes(rng, depth - 1, ctx, params=params), els]
+        t = rand_test(rng, ctx)
+        node = ['cond', t, rand_nodes(rng, depth - 1, ctx, params=params), els]
+        if t[0] == 'ifxchar' and rng.random() < 0.5:
+            node.append('macro')
+        return node
     if depth > 0 and r < 0.42:
         nb = rng.randint(1, 4)
         els = rand_nodes(rng, depth - 1, ctx, params=params) if rng.random() < 0.5 else None
@@ -261,6 +265,19 @@ def streams(rng, tier, boost):
         out.append(('scan-soup', dict(kind='scan', which=rand_which(rng, 2), toks=soup, rendered=False)))
     for i in range((500 if tier == 'quick' else 6000) * boost):
         out.append(('programs', dict(kind='prog', prog=rand_prog(rng, rng.choice([1, 2, 2, 3, 3, 4])))))
+    # an undefined control sequence in a branch that is skipped stays undefined: every way of skipping, the skipped text starts with
+    # the undefined name directly after the test (a number ended by one blank included), then \ifdefined asks for that name
+    skips = [(['num', ['lit', 2, 'plain', ''], '<', ['lit', 1, 'plain', ''], 'space'], True), (['num', ['lit', 1, 'plain', ''], '<', ['lit', 2, 'plain', ''], 'space'], False),
+             (['num', ['lit', 2, 'plain', ''], '<', ['lit', 1, 'plain', ''], 'relax'], True), (['false'], True), (['true'], False),
+             (['odd', ['lit', 2, 'plain', ''], 'space'], True), (['odd', ['lit', 3, 'plain', ''], 'space'], False),
+             (['dim', ('1', 'pt'), '>', ('2', 'pt')], True), (['ifxchar', 97, 98], True)]
+    for t, in_then in skips:
+        for und in (50, 51):
+            undefined = ['call', und, None, [], {}]
+            thn, els = ([undefined, ['word', 1]], [['word', 2]]) if in_then else ([['word', 1]], [undefined, ['word', 2]])
+            out.append(('skipped-undefined', dict(kind='prog', prog=[['cond', t, thn, els], ['cond', ['defined', und], [['word', 3]], [['word', 4]]]])))
+            out.append(('skipped-undefined', dict(kind='prog', prog=[['case', ['lit', 1, 'plain', ''], [[undefined], [['word', 1]], [undefined]], [undefined]],
+                                                                     ['cond', ['defined', und], [['word', 3]], [['word', 4]]]])))
     # signs directly in front of register / counter operands (small, systematic): the variable holds v, the test compares
     # it - written with a minus sign in front, relation turned round - with a literal, in both operand orders; selectors of \ifodd
     for v in (-3, -2, -1, 0, 1, 2, 3):
